@@ -6,7 +6,8 @@
                     scenario with any result kind at any time.  Cancelling a pending request reproduces the
                     REAL client's outcome (harness/lib/client_iface.md): coordinator requests and the
                     coordinator look-up fail with Twisted's CancelledError, `load_metadata_for_topics`
-                    SUCCEEDS with None, `_load_topic_partitions` fails with a KafkaError.
+                    SUCCEEDS with None, `_load_topic_partitions` fails with a KafkaError (or, sleeping before a
+                    retry - 5th cfg element - with CancelledError).
 * `FakeConsumer`  - stands in for afkak.consumer.Consumer (patched as `afkak._group.Consumer`): records
                     start/shutdown/stop, the scenario completes the shutdown Deferred or fails start's.
 * `GroupWorld`    - one real ConsumerGroup over these; `apply(event)` -> observations, `snap()`, `st()`,
@@ -138,7 +139,10 @@ class FakeClient(object):
             if kind == "meta":
                 d.callback(None)  # the real client eats the CancelledError
             elif kind == "parts":
-                d.errback(Failure(kinds()["kafkaUnavailable"]("cancelled")))
+                # waiting for its metadata request: KafkaError; sleeping before a retry: the cancelled delay's
+                # CancelledError comes out (the same that `close()` produces since 2a79d59)
+                sleeping = len(self.world.cfg) > 4 and self.world.cfg[4]
+                d.errback(Failure(kinds()["cancelled" if sleeping else "kafkaUnavailable"]("cancelled")))
             # else: Deferred.cancel() errbacks CancelledError itself
 
         d = defer.Deferred(canceller)
@@ -251,7 +255,7 @@ class GroupWorld(object):
     TOPICS = ["t1", "t2"]
 
     def __init__(self, cfg):
-        """cfg = (initial_backoff_ms, retry_backoff_ms, fatal_backoff_ms, heartbeat_interval_ms)"""
+        """cfg = (initial_backoff_ms, retry_backoff_ms, fatal_backoff_ms, heartbeat_interval_ms[, parts_cancel_sleeping])"""
         import afkak._group as G
 
         self.cfg = cfg
